@@ -50,10 +50,49 @@ func ExtractMatrices(M tensor.Tensor, nMatrices, nDimensions, hiddenSize int) ([
 			return nil, err
 		}
 
-		matrices[i] = m
+		// With a hidden size of 1 the slice loses its hidden dimension.
+		expectedShape := append([]int{hiddenSize}, M.Shape()[2:]...)
+
+		matrices[i], err = restoreShape(m, expectedShape)
+		if err != nil {
+			return nil, err
+		}
 	}
 
 	return matrices, nil
+}
+
+// ExtractTimestep returns the input of a recurrent operator for timestep t as a matrix of shape
+// (batch_size, input_size), given X with shape (seq_length, batch_size, input_size).
+func ExtractTimestep(X tensor.Tensor, t int) (tensor.Tensor, error) {
+	Xt, err := X.Slice(NewSlicer(t, t+1), nil, nil)
+	if err != nil {
+		return nil, err
+	}
+
+	return restoreShape(Xt, X.Shape()[1:])
+}
+
+// restoreShape gives the result of a slice operation the shape it is meant to have: slicing drops
+// every sliced dimension of size one, and a result of a single element even becomes a scalar.
+func restoreShape(t tensor.View, shape []int) (tensor.Tensor, error) {
+	current := t.Shape()
+
+	sameShape := len(current) == len(shape)
+	for i := 0; sameShape && i < len(shape); i++ {
+		sameShape = current[i] == shape[i]
+	}
+
+	if sameShape {
+		return t, nil
+	}
+
+	restored := t.Materialize()
+	if err := restored.Reshape(shape...); err != nil {
+		return nil, err
+	}
+
+	return restored, nil
 }
 
 // ZeroTensor returns a tensor filled with zeros with the given shape.
